@@ -11,7 +11,7 @@ Definition stream_error_flushed_statement : Prop :=
 
 (* Serve, and a peer whose element makes the handler fail *)
 Definition witness_kinds : list kind := [KServe; KPeer [PElem false true 1]].
-Definition witness_trace : list nat := [1; 1] ++ repeat 0 20.
+Definition witness_trace : list nat := [1; 1] ++ repeat 0 24.
 
 Lemma witness_runs : exists s, run step (init true witness_kinds) witness_trace = Some s /\
   o_lock (s_o s) = None /\ o_buf (s_o s) = [IErr] /\ o_wire (s_o s) = [IClose] /\
